@@ -67,6 +67,11 @@ pub struct ExecOpts {
     pub tolerate_commit_errors: bool,
     /// skip the final sweep and the final close (the crash engine cuts the run off itself)
     pub no_final: bool,
+    /// pass explicit timestamps to writes although versioning is off (they are irrelevant to the answers, but the write
+    /// set keeps several entries per key and savepoint for them)
+    pub explicit_ts_unversioned: bool,
+    /// some explicit timestamps lie BEFORE earlier versions of the same key (only with the version index; sets only)
+    pub backdate: bool,
     /// do not compare the store with the model at all (second-generation crash workloads start from a recovered
     /// image the child knows nothing about; the parent does the judging)
     pub no_sweeps: bool,
@@ -89,6 +94,8 @@ impl Default for ExecOpts {
             tolerate_commit_errors: false,
             no_final: false,
             no_sweeps: false,
+            explicit_ts_unversioned: false,
+            backdate: false,
         }
     }
 }
@@ -194,6 +201,23 @@ fn show_opt(v: &Option<Vec<u8>>) -> String {
     match v {
         None => "nothing".into(),
         Some(b) => format!("a value of {} bytes (hash {:x})", b.len(), crate::util::hash64(&b[..])),
+    }
+}
+
+/// A timestamp below the newest version of `key` that no version of the key carries yet.
+fn backdated_ts(model: &Model, key: &[u8], now: u64) -> Option<u64> {
+    let vs = model.writes_of(model.len(), key);
+    let newest = vs.iter().map(|v| v.ts).max()?;
+    let used: std::collections::BTreeSet<u64> = vs.iter().map(|v| v.ts).collect();
+    let back = 1 + (crate::util::hash64(&(key, vs.len())) % 12);
+    let mut t = newest.saturating_sub(back).min(now);
+    while t > 1 && used.contains(&t) {
+        t -= 1;
+    }
+    if t <= 1 || used.contains(&t) {
+        None
+    } else {
+        Some(t)
     }
 }
 
@@ -1274,10 +1298,15 @@ impl<'a> Exec<'a> {
             }
             sl.pending.bytes += sz;
         }
-        // explicit timestamps only with versioning, and never for replace (no API)
-        let ts = if cfg.versioning && !matches!(op, Op::Replace(_)) {
+        // explicit timestamps only with versioning (or on request), and never for replace (no API)
+        let ts = if (cfg.versioning || self.opts.explicit_ts_unversioned) && !matches!(op, Op::Replace(_)) {
             let barrier_near = self.opts.no_ties || !matches!(op, Op::Set(_)) || !matches!(self.model.latest_op(self.model.len(), &key), Some(Op::Set(_)) | None);
             ts_hint.map(|d| {
+                if self.opts.backdate && d == 3 && matches!(op, Op::Set(_)) {
+                    if let Some(t) = backdated_ts(&self.model, &key, self.clock.peek()) {
+                        return t;
+                    }
+                }
                 // equal timestamps are only generated between two plain sets (the semantics of a tie that involves a
                 // delete, a soft delete or a replace are unspecified)
                 let d = if d == 0 && barrier_near { 1 } else { d };
@@ -1523,6 +1552,11 @@ impl<'a> Exec<'a> {
             let ts = if self.cfg.versioning && !matches!(op, Op::Replace(_)) {
                 let barrier_near = self.opts.no_ties || !matches!(op, Op::Set(_)) || !matches!(self.model.latest_op(self.model.len(), &key), Some(Op::Set(_)) | None);
                 w.ts.map(|d| {
+                    if self.opts.backdate && d == 3 && matches!(op, Op::Set(_)) {
+                        if let Some(t) = backdated_ts(&self.model, &key, self.clock.peek()) {
+                            return t;
+                        }
+                    }
                     let d = if d == 0 && barrier_near { 1 } else { d };
                     let t = self.clock.peek() + d;
                     self.clock.advance(d);
